@@ -75,7 +75,22 @@ impl<'a> G<'a> {
         if d == 0 {
             return if !ints.is_empty() && self.r.chance(1, 2) { self.r.pick(&ints).clone() } else { self.lit() };
         }
-        match self.r.below(33) {
+        match self.r.below(35) {
+            33 | 34 => {
+                // a closure that uses the same outer variable both whole and through a field / index
+                // path (two captures with a common base)
+                self.feat("capture-whole-and-path");
+                let (a, b2, c) = (self.int(d - 1), self.int(d - 1), self.int(d - 1));
+                match self.r.below(7) {
+                    5 => format!("{{ cp = O[in: P[x: {a}, y: {b2}], k: {c}], cf = #'int {{ [[~, cp.in.x] __integer_add__, cp.k, cp] .0 }}, {c} cf | 0 }}"),
+                    6 => format!("{{ cp = O[in: P[x: {a}, y: {b2}], k: {c}], cf = #'int {{ =cv, #{{ [cv, cp.in.y, cp.in, cp] .1 }} }}, 1 cf =cg, cg | 0 }}"),
+                    0 => format!("{{ cp = P[x: {a}, y: {b2}], cf = #'int {{ [~, cp.x] __integer_add__ =cs => [cs, cp] }}, {c} cf .0 | 0 }}"),
+                    1 => format!("{{ ct = [{a}, {b2}], cf = #'int {{ [[~, ct.0] __integer_add__, ct] .0 }}, {c} cf | 0 }}"),
+                    2 => format!("{{ cp = P[x: {a}, y: {b2}], ck = {c}, cf = #'int {{ =cv, #'int {{ [~, ck, cp.y, cp] }} }}, 1 cf =cg, 7 cg .2 | 0 }}"),
+                    3 => format!("{{ cp = P[x: {a}, y: {b2}], cf = #'int {{ [~, cp.y] __integer_multiply__ [~, cp] .1 .x }}, {c} cf | 0 }}"),
+                    _ => format!("[{c}, 9] {{ =[wa, wb] => {{ cp = P[x: {a}, y: wa], cf = #'int {{ [[~, cp.y] __integer_add__, [cp, wb] .0 .x] __integer_subtract__ }}, wb cf }} }}"),
+                }
+            }
             30 => {
                 // spread / partial / star patterns over a value whose type is a union of tuples
                 self.feat("union-spread");
@@ -616,7 +631,14 @@ impl<'a> G<'a> {
         self.feat("process");
         let a = self.int(1);
         let k = self.lit();
-        match self.r.below(11) {
+        match self.r.below(12) {
+            11 => vec![
+                // spawned closures capturing a record whole and through a path
+                format!("rec = P[x: {a}, y: {k}]"),
+                "w1 = @#{ [rec.x, rec] .0 }".into(),
+                "w2 = 2 @#'int { [~, rec.y, rec] .1 }".into(),
+                "[!w1, !w2]".into(),
+            ],
             9 => vec![
                 // nilary server loop driven by messages
                 "srv = @#{ !#'int, ^ }".into(),
